@@ -1,5 +1,6 @@
 #!/bin/sh
 cd "$(dirname "$0")/.." || exit 2
+[ -n "$VP_RUN_REPO" ] && export VERIF_REPO="$VP_RUN_REPO"
 (cd lean && lake build >/dev/null 2>&1)
 for p in $1; do
   s=$(date +%s)
